@@ -65,3 +65,16 @@ Proof.
   - destruct (get_int l i); [|discriminate]. destruct (get_idx l idx) as [t|]; [|discriminate].
     injection H as <-. cbn [length]. f_equal. apply IH. reflexivity.
 Qed.
+
+(* the signless rotation kernel is the string part of the signed one *)
+Lemma rotate_bits_gxor : forall a g,
+  map2 (fun s t => (bz (np_rotate_bit (zb (fst s)) (zb (fst t))), bz (np_rotate_bit (zb (snd s)) (zb (snd t))))) a g = gxor a g.
+Proof.
+  induction a as [|s a IH]; intros [|t g]; try reflexivity.
+  cbn [map2 gxor]. rewrite IH. f_equal. destruct s as [[|] [|]], t as [[|] [|]]; reflexivity.
+Qed.
+Lemma rotate1_signless_fst : forall g a p q, fst (rotate1 (g, p) (a, q)) = rotate1_signless g a.
+Proof.
+  intros g a p q. unfold rotate1, rotate1_signless. cbn [fst snd]. destruct (bz (acq g a)); [|reflexivity].
+  cbn [fst]. apply rotate_bits_gxor.
+Qed.
